@@ -124,7 +124,15 @@ fn readback_path(c: &Conc, shapes: &[AShape], path: &Path) -> Value {
 pub fn run_history(tr: &mut Trace, c: &Conc, r: &mut Rng, t: i32, tx: i32, hist: &str, by_path: bool, tmp: &Path, id: usize, prop: &str) {
     let n = hist.len();
     // one distinct shape per call (so that a shape identifies the call that wrote it)
-    let good = distinct_shapes(r, t, n.max(1), false);
+    let mut good = distinct_shapes(r, t, n.max(1), false);
+    // every third history: the shapes end in an EMPTY ring / patch (legal for the constructors; the record still
+    // announces it, so the records that follow must start where the index says)
+    if id % 3 == 0 && matches!(family(t), "polygon" | "multipatch") {
+        for g in good.iter_mut() {
+            g.parts.push(vec![]);
+            g.kinds.push(if t == 31 { (id % 6) as i32 } else { 1 });
+        }
+    }
     let other = distinct_shapes(r, tx, if hist.contains('x') { n.max(1) } else { 1 }, false);
     let built_good: Vec<Shape> = good.iter().map(|a| build(c, a)).collect();
     let built_other: Vec<Shape> = other.iter().map(|a| build(c, a)).collect();
